@@ -2,6 +2,7 @@ mod driver;
 mod exact;
 mod gen;
 mod mk;
+mod model;
 mod props;
 mod tape;
 
